@@ -1922,12 +1922,12 @@ pub fn replay(case: &Value, ctx: &mut Ctx) -> bool {
             o::c13_ident_routines(&input, ctx);
         }
         "c18" => crate::sched::replay(case, ctx),
-        "c07" => o3::c07(&input, case["prefix_len"].as_u64().map(|n| n as usize), &c, ctx),
+        "c07" => o3::c07_eof(&input, case["prefix_len"].as_u64().map(|n| n as usize), case["eof_clause"].as_bool().unwrap_or(false), &c, ctx),
         "c12" => o3::c12(&input, &c, ctx),
         "c15" => {
             let cur: Vec<u32> = case["cursors"].as_array().map(|a| a.iter().filter_map(|v| v.as_u64()).map(|v| v as u32).collect()).unwrap_or_default();
             let _ = cur;
-            o3::c15(&input, &c, &o3::C15Opts { singles: true, pairs: input.len() <= 12 }, ctx);
+            o3::c15(&input, &c, &o3::C15Opts { singles: input.len() <= 5000, pairs: input.len() <= 12 }, ctx);
         }
         "c02" => {
             let out = ctx.fmt(&c, &input);
